@@ -51,6 +51,9 @@ pub struct Ctx {
     pub outcomes: Mutex<BTreeMap<String, u64>>,
     pub samples: Mutex<Vec<Value>>,
     pub evaluations: AtomicU64,
+    /// machinery trouble met on the way (never a verdict): reported, and decides the exit code only
+    /// when no violation was found
+    pub machinery: Mutex<Vec<String>>,
 }
 
 impl Ctx {
@@ -66,6 +69,14 @@ impl Ctx {
             outcomes: Mutex::new(BTreeMap::new()),
             samples: Mutex::new(Vec::new()),
             evaluations: AtomicU64::new(0),
+            machinery: Mutex::new(Vec::new()),
+        }
+    }
+
+    pub fn machinery(&self, msg: impl Into<String>) {
+        let mut m = self.machinery.lock().unwrap();
+        if m.len() < 20 {
+            m.push(msg.into());
         }
     }
 
@@ -282,6 +293,7 @@ pub fn finish(ctx: &Ctx, mut report: Report) -> i32 {
     );
     report.set("violation_classes", Value::Array(classes));
     report.set("known_findings_matched", listed as u64);
+    report.set("machinery_errors", ctx.machinery.lock().unwrap().len() as u64);
     let ev = json!({
         "property_id": ctx.id,
         "tier": ctx.tier.name(),
@@ -304,8 +316,15 @@ pub fn finish(ctx: &Ctx, mut report: Report) -> i32 {
         wall,
         path
     );
+    let machinery = ctx.machinery.lock().unwrap().clone();
+    for m in &machinery {
+        println!("MACHINERY: {m}");
+    }
     if unlisted > 0 {
         1
+    } else if !machinery.is_empty() {
+        // part of the exploration could not be carried out: no verdict from this run
+        2
     } else {
         0
     }
